@@ -430,6 +430,58 @@ def _finalize_table(ctx, m):
     return out
 
 
+# table -> the one method name that may update it in place (every handler class validates there; A1/A3/A5 decide those methods)
+_WRITERS = {"locs": "add", "regions": "add_region", "io_regions": "add_region", "masters": "add_master", "slaves": "add_slave"}
+# (SoC.constants is deliberately absent: Builder merges the JSON constants into it after finalisation, by design)
+_INTEGRATION = ("litex/soc/integration/soc.py", "litex/soc/integration/soc_core.py", "litex/soc/integration/builder.py",
+                "litex/soc/integration/export.py")
+
+
+def _reordering_of(value, target):
+    """value is {k: v for k, v in sorted(<target>.items(), ..)} / dict(sorted(<target>.items(), ..)) / OrderedDict(..)"""
+    it = None
+    if isinstance(value, ast.DictComp) and len(value.generators) == 1 and not value.generators[0].ifs:
+        g = value.generators[0]
+        if isinstance(g.target, ast.Tuple) and len(g.target.elts) == 2 and norm(g.target.elts[0]) == norm(value.key) and \
+                norm(g.target.elts[1]) == norm(value.value):
+            it = g.iter
+    elif isinstance(value, ast.Call) and norm(value.func) in ("dict", "OrderedDict") and len(value.args) == 1 and not value.keywords:
+        it = value.args[0]
+    if isinstance(it, ast.Call) and norm(it.func) == "sorted" and it.args:
+        it = it.args[0]
+    return it is not None and norm(it) == f"{target}.items()"
+
+
+def _who_may_write(ctx):
+    from .c02 import _mutated_in_place
+    for rel in _INTEGRATION:
+        m = ctx.mod(rel)
+        scopes = []
+        for c in m.tree.body:
+            if isinstance(c, ast.ClassDef):
+                scopes += [(f"{c.name}.{f.name}", f) for f in c.body if isinstance(f, ast.FunctionDef)]
+            elif isinstance(c, ast.FunctionDef):
+                scopes.append((c.name, c))
+        for scope, f in scopes:
+            meth = scope.rsplit(".", 1)[-1]
+            for n in ast.walk(f):
+                for x in _mutated_in_place(n):
+                    if isinstance(x, ast.Attribute) and x.attr in _WRITERS:
+                        ok = meth == _WRITERS[x.attr] and norm(x.value) == "self"
+                        ctx.ob("A6", rel, scope, f"in-place update of .{x.attr} only in {_WRITERS[x.attr]}()", ok,
+                               "" if ok else f"`{norm(n)[:90]}` writes the table `{norm(x)}` directly: the request bypasses the uniqueness / range / "
+                                             f"overlap tests of {_WRITERS[x.attr]}(), so an illegal or duplicate grant is built instead of refused", n)
+                if isinstance(n, (ast.Assign, ast.AnnAssign)):
+                    for t in (n.targets if isinstance(n, ast.Assign) else [n.target]):
+                        if isinstance(t, ast.Attribute) and t.attr in _WRITERS and n.value is not None:
+                            empty = isinstance(n.value, ast.Dict) and not n.value.keys or \
+                                (isinstance(n.value, ast.Call) and norm(n.value.func) in ("dict", "OrderedDict") and not n.value.args and not n.value.keywords)
+                            ok = (meth == "__init__" and norm(t.value) == "self" and empty) or _reordering_of(n.value, norm(t))
+                            ctx.ob("A6", rel, scope, f".{t.attr} bound to an empty table in __init__ or to a re-ordering of itself", ok,
+                                   "" if ok else f"`{norm(n)[:90]}` replaces the table `{norm(t)}` wholesale: grants appear or vanish without passing "
+                                                 f"{_WRITERS[t.attr]}()", n)
+
+
 def run(ctx):
     m = ctx.mod(SOC)
     ctx.rule("A1", "commit => validated: on every path a store into self.regions / self.io_regions / self.locs is covered "
@@ -443,6 +495,11 @@ def run(ctx):
                    "same path before returning the object; lookups read only `matched`", min_sites=7)
     ctx.rule("A5", "duplicate-name tests dominate the insertion (add_master/add_slave/add_constant/check_if_exists/"
                    "csr add_master)", min_sites=5)
+
+    ctx.rule("A6", "who may write: the granted-so-far tables (locs, regions, io_regions, masters, slaves) are updated in "
+                   "place only by the validating method of their handler (add / add_region / add_master / add_slave); "
+                   "they are bound only to an empty dict in __init__ or to a re-ordering of themselves", min_sites=12)
+    _who_may_write(ctx)
 
     # ================= A1: SoCBusHandler.add_region (histories interpreted on a model bus, see _add_region_table)
     fn = m.method("SoCBusHandler", "add_region")
